@@ -371,9 +371,22 @@ fn fix_axis<T: Flt>(s: &mut Spec1<T>) {
 fn case2<T: Elem>(case: u64, args: &Args, ev: &mut Ev, log: &mut EventLog) {
     let mut rng = Rng::derive(args.seed, "C15", &[case]);
     let extrapolate = rng.chance(0.4);
-    let (nx, ny) = (pick_n(&mut rng, 2, 9), pick_n(&mut rng, 2, 8));
+    let (nx, mut ny) = (pick_n(&mut rng, 2, 9), pick_n(&mut rng, 2, 8));
     let (x, kx, sx) = grid_axis::<T>(&mut rng, nx);
-    let (y, ky, sy) = grid_axis::<T>(&mut rng, ny);
+    let (mut y, mut ky, mut sy) = grid_axis::<T>(&mut rng, ny);
+    // a square grid whose axes share both end values but not the interior knots, queried on
+    // the diagonal (the independent factors for x and y then separate the ends)
+    let twin = (case / 4) % 3 == 1 && nx >= 3;
+    if twin {
+        ny = nx;
+        sy = sx;
+        let mut pool: Vec<i64> = (kx[0] + 1..kx[nx - 1]).collect();
+        rng.shuffle(&mut pool);
+        let mut inner: Vec<i64> = pool[..nx - 2].to_vec();
+        inner.sort();
+        ky = std::iter::once(kx[0]).chain(inner).chain(std::iter::once(kx[nx - 1])).collect();
+        y = ky.iter().map(|&k| T::of(k as f64 * f64::pow2(-sy))).collect();
+    }
     let lanes = gen_lane_shape(&mut rng, 2, false);
     let mut shape = vec![nx, ny];
     shape.extend(&lanes);
@@ -384,7 +397,14 @@ fn case2<T: Elem>(case: u64, args: &Args, ev: &mut Ev, log: &mut EventLog) {
     let mut qy = grid_queries::<T>(&mut rng, &ky, sy, extrapolate, 24 + nx.max(ny));
     rng.shuffle(&mut qy);
     let m = qx.len().min(qy.len());
-    let (qx, qy) = (qx[..m].to_vec(), qy[..m].to_vec());
+    let (mut qx, mut qy) = (qx[..m].to_vec(), qy[..m].to_vec());
+    if twin {
+        for q in grid_queries::<T>(&mut rng, &kx, sx, false, 16) {
+            qx.push(q);
+            qy.push(q);
+        }
+        ev.add("twin_end_grids_with_diagonal_queries", 1);
+    }
     let h = hash_bits(&[&bits_of(&x), &bits_of(&y), &bits_of_arr(&data)], &[T::NAME]);
     ev.case(h, true);
     ev.count("strategy", spec.strat.name());
